@@ -363,8 +363,8 @@ impl Drop for TempFileGuard<'_> {
 /// Uses the atomic write pattern to prevent data loss:
 /// 1. Write content to a temporary file in the same directory
 /// 2. Sync temp file to disk for durability
-/// 3. Open (or create) the target file for locking
-/// 4. Acquire exclusive lock on the target file
+/// 3. Open the target file for locking if it exists (a missing target is never created empty)
+/// 4. Acquire exclusive lock on the target file (if it exists)
 /// 5. Atomically rename temp → target
 ///
 /// If any step before rename fails, the temp file is cleaned up automatically
@@ -437,17 +437,26 @@ pub(crate) fn atomic_write_with_lock_timeout(
 
     #[cfg(feature = "verif-hooks")]
     crate::verif_hooks::point("aw:after_fsync");
-    // Acquire exclusive lock on target file (create if needed, don't truncate)
-    let lock_file = OpenOptions::new()
-        .write(true)
-        .create(true)
-        .truncate(false) // Don't truncate - we're just using this for locking
-        .open(path)
-        .map_err(|e| SlocGuardError::io_with_context(e, path.to_path_buf(), "open for lock"))?;
+    // Acquire exclusive lock on the target file if it exists. A missing target is NOT
+    // created for locking: an empty placeholder would be what a crash before the rename
+    // (or a concurrent reader) finds. With no target there is nothing to lock.
+    let lock_file = match OpenOptions::new().write(true).open(path) {
+        Ok(file) => Some(file),
+        Err(e) if e.kind() == io::ErrorKind::NotFound => None,
+        Err(e) => {
+            return Err(SlocGuardError::io_with_context(
+                e,
+                path.to_path_buf(),
+                "open for lock",
+            ));
+        }
+    };
 
     #[cfg(feature = "verif-hooks")]
     crate::verif_hooks::point("aw:after_open_target");
-    if let Err(e) = try_lock_exclusive_with_timeout(&lock_file, timeout_ms) {
+    if let Some(lock_file) = lock_file.as_ref()
+        && let Err(e) = try_lock_exclusive_with_timeout(lock_file, timeout_ms)
+    {
         // temp_guard will clean up on drop
         crate::output::print_warning_full(
             &format!("Failed to acquire write lock on {file_description}"),
@@ -481,8 +490,10 @@ pub(crate) fn atomic_write_with_lock_timeout(
         //
         // Note: unlock_file is best-effort; dropping lock_file closes the handle
         // anyway, releasing the lock as a side effect.
-        unlock_file(&lock_file);
-        drop(lock_file);
+        if let Some(lock_file) = lock_file {
+            unlock_file(&lock_file);
+            drop(lock_file);
+        }
         // Remove target (ignore error if it doesn't exist)
         let _ = fs::remove_file(path);
         fs::rename(&temp_path, path)
@@ -496,7 +507,9 @@ pub(crate) fn atomic_write_with_lock_timeout(
         crate::verif_hooks::point("aw:after_rename");
         // Note: unlock_file is best-effort; dropping lock_file closes the handle
         // anyway, releasing the lock as a side effect.
-        unlock_file(&lock_file);
+        if let Some(lock_file) = lock_file.as_ref() {
+            unlock_file(lock_file);
+        }
         #[cfg(feature = "verif-hooks")]
         crate::verif_hooks::point("aw:after_unlock");
     }
